@@ -77,7 +77,10 @@ type Term struct {
 	Sort Sort
 	Lit  interface{} // bool | uint64 (bit pattern, masked to width) | float64 ; nil if symbolic
 	Syms []string    // sorted, unique
+	ite  *iteParts   // set when the term is (ite c a b)
 }
+
+type iteParts struct{ c, a, b Term }
 
 func (t Term) IsLit() bool { return t.Lit != nil }
 func (t Term) String() string {
@@ -307,7 +310,7 @@ func mkIte(c, a, b Term) Term {
 			return mkAnd(c, a)
 		}
 	}
-	return Term{S: "(ite " + c.S + " " + a.S + " " + b.S + ")", Sort: a.Sort, Syms: symsOf(c, a, b)}
+	return Term{S: "(ite " + c.S + " " + a.S + " " + b.S + ")", Sort: a.Sort, Syms: symsOf(c, a, b), ite: &iteParts{c, a, b}}
 }
 
 // mkEq is structural/bit equality ("=" in SMT-LIB); for FP use mkFPEq for IEEE equality.
@@ -328,6 +331,13 @@ func mkEq(a, b Term) Term {
 			y := b.Lit.(float64)
 			return mkBool(math.Float64bits(x) == math.Float64bits(y) || (x != x && y != y))
 		}
+	}
+	// (= (ite c x y) lit) distributes, so that tests of a selected tag become tests of the selector
+	if a.ite != nil && b.IsLit() && a.Sort != SFP {
+		return mkIte(a.ite.c, mkEq(a.ite.a, b), mkEq(a.ite.b, b))
+	}
+	if b.ite != nil && a.IsLit() && b.Sort != SFP {
+		return mkIte(b.ite.c, mkEq(b.ite.a, a), mkEq(b.ite.b, a))
 	}
 	if a.Sort == SBool {
 		if a.isTrue() {
